@@ -150,3 +150,51 @@ def _seed(rnd):
 
 for _h in (h_dir_gcm_authentic, h_kw_gcm_authentic, h_dir_cbc_authentic):
     _h.seed_fn = _seed
+
+
+def h_json_gcm_authentic():
+    """Flattened / general JSON, dir + A128GCM, with or without a JWE AAD: plaintext only if the tag is valid over the
+    RECEIVED protected-header octets (and AAD), whatever spelling the header JSON has."""
+    form = sym_choice("form", ["flattened", "general"])
+    key, k = oct_key_of_len("k", 16)
+    hb, h = _header("hb", "dir", "A128GCM")
+    iv, ct, tag = sym_bytes("iv"), sym_bytes("ct"), sym_bytes("tag")
+    value = {"protected": spec_b64u(hb).decode("ascii"), "iv": spec_b64u(iv).decode("ascii"),
+             "ciphertext": spec_b64u(ct).decode("ascii"), "tag": spec_b64u(tag).decode("ascii")}
+    aad_octets = spec_b64u(hb)
+    if sym_choice("with_aad", [False, True]):
+        aad = sym_bytes("aad")
+        assume(len(aad) > 0)
+        value["aad"] = spec_b64u(aad).decode("ascii")
+        aad_octets = spec_b64u(hb) + b"." + spec_b64u(aad)
+    if form == "general":
+        value["recipients"] = [{}]
+    out = call(jwe.decrypt_json, value, key, ALGS)
+    ok = spec_gcm_ok(k, iv, aad_octets, ct, tag)
+    if out.returned:
+        check(ok, "JSON dir+GCM: returned => the tag is valid for the received protected header octets (and AAD), IV and ciphertext under the key")
+        check(py_eq(out.value.plaintext, spec_gcm_dec(k, iv, aad_octets, ct, tag)), "JSON dir+GCM: returned => plaintext is the authenticated decryption")
+    if not ok:
+        check(not out.returned, "JSON dir+GCM: any other header octets / AAD / IV / ciphertext / tag is rejected")
+
+
+HARNESSES.append(h_json_gcm_authentic)
+
+
+def _seed_json(rnd):
+    """valid JSON tokens, and tokens whose tag was made over a re-serialization of a differently spelt header"""
+    from cryptography.hazmat.primitives.ciphers.aead import AESGCM
+    from pyvc.spec import ref_B64U
+    import json as _json
+    k = bytes(rnd.randrange(256) for _ in range(16))
+    hb = rnd.choice([b'{"alg":"dir","enc":"A128GCM"}', b'{"alg": "dir", "enc": "A128GCM"}', b'{ "alg":"dir",\r\n "enc":"A128GCM" }'])
+    with_aad = rnd.randrange(2)
+    aad = bytes(rnd.randrange(256) for _ in range(3))
+    over = rnd.choice([hb, _json.dumps(_json.loads(hb), separators=(",", ":")).encode()])
+    a = ref_B64U(over) + ((b"." + ref_B64U(aad)) if with_aad else b"")
+    iv = bytes(rnd.randrange(256) for _ in range(12))
+    out = AESGCM(k).encrypt(iv, b"secret", a)
+    return {"form": rnd.randrange(2), "k": k, "hb": hb, "iv": iv, "ct": out[:-16], "tag": out[-16:], "with_aad": with_aad, "aad": aad}
+
+
+h_json_gcm_authentic.seed_fn = _seed_json
